@@ -294,6 +294,17 @@ def pred_c03(prog, ob, crashed=False):
                     after = i
                 seen += 1
         if after is not None and not any(e[0] == "send" and e[2] in taskables for e in ob["trace"][after + 1:]):
+            # no scheduler send follows the crash.  That is the end of the statement only if the crash hit the
+            # final sweep itself: the send that was in progress is an ABORT nobody had bid (the skedder's own).
+            # A crash inside an ordinary run must be followed by the sweep of every tasker still scheduled.
+            begun = [o for o in ob.get("oracle", []) if o[0] == "sendbegin" and o[5] <= after]
+            top = [o for o in begun if ix.tid.get(o[2]) in taskables]
+            if not top or top[-1][3] != 3:
+                left = [t for t in taskables if ob["status"][t] != 3]
+                if left and top:
+                    return ("not-swept-after-fault", "an action raised during an ordinary run (control %d to %s) and "
+                            "the taskers %r were never aborted: the final sweep did not reach them" % (
+                                top[-1][3], top[-1][2], left))
             return None
     for t in taskables:
         if ob["status"][t] != 3:
@@ -771,6 +782,81 @@ def pred_c02_replay(prog, ob):
     return None
 
 
+def pred_slaves_unscheduled(prog, ob):
+    """slave and auxiliary framers are never run by the scheduler: every control they receive is sent from inside
+    the run of another framer (a fiat, or their main framer), never at the top level of a tick"""
+    sched = {fm["name"]: fm["sched"] for fm in prog["framers"]}
+    for e in ob.get("oracle", []):
+        if e[0] == "sendbegin" and len(e) > 6 and e[6] == 0 and sched.get(e[2]) in ("slave", "aux"):
+            return ("slave-run-by-scheduler", "tick %d: %s framer %s received control %d directly from the scheduler"
+                    % (e[1], sched[e[2]], e[2], e[3]))
+    return None
+
+
+def pred_let_conjuncts(prog, ob):
+    """every conjunct of a `let [me] if A and B ...` command is a before-enter act of its frame"""
+    want = {(fm["name"], fr["name"]): len([n for n in fr.get("beacts", []) if n[0] != "always"])
+            for fm in prog["framers"] for fr in fm["frames"]}
+    for e in ob.get("oracle", []):
+        if e[0] == "beacts" and (e[2], e[3]) in want and e[4] != want[(e[2], e[3])]:
+            return ("let-conjunct-dropped", "frame %s of %s was written with %d before-enter conditions but carries %d "
+                    "before-enter acts after the build" % (e[3], e[2], want[(e[2], e[3])], e[4]))
+    return None
+
+
+def pred_tracts_first(prog, ob):
+    """a taken transition (or a started conditional auxiliary) runs its transit actions before any exit, re-exit,
+    re-enter or enter action: no recorder event precedes a transit marker inside the attempt"""
+    orc = ob.get("oracle", [])
+    for i, e in enumerate(orc):
+        if e[0] in ("transit", "suspend") and e[8] is not None and len(e) > 11:
+            for x in orc[i + 1:e[11]]:
+                if x[0] == "mark" and x[2] == 0 and x[3] > e[7]:
+                    return ("transit-actions-late", "tick %d: %s of %s ran %d action event(s) %r before its transit "
+                            "(marker) actions" % (e[1], e[0], e[2], x[3] - e[7], ob["trace"][e[7]:x[3]][:3]))
+                if x[0] in ("transit", "suspend"):
+                    break        # nested attempts have their own check
+    return None
+
+
+def pred_recur_active(prog, ob):
+    """only the frames of the framer's (possibly truncated) active outline recur: a frame suspended under a
+    conditional auxiliary -- and with it its plain auxiliaries -- does not"""
+    for e in ob.get("oracle", []):
+        if e[0] == "recur" and e[3] not in e[4]:
+            return ("suspended-frame-recurs", "tick %d: frame %s of %s ran its recur step (its recur actions and its "
+                    "auxiliaries' runs) although the framer's active frames were %r" % (e[1], e[3], e[2], e[4]))
+    return None
+
+
+def pred_c11_verbs(prog, ob):
+    """`timeout T` / `repeat N`: whenever the verb's transition is attempted its condition is exactly
+    elapsed >= T / recurred >= N on the framer's clocks at that moment"""
+    verbs = {}
+    for fm in prog["framers"]:
+        for fr in fm["frames"]:
+            gos = [pa for pa in fr.get("preacts", []) if pa[0] == "go"]
+            for pa in gos:
+                if len(pa) > 3 and len([g for g in gos if g[2] == pa[2]]) == 1:
+                    verbs[(fm["name"], fr["name"], pa[2])] = (pa[3], pa[1][0][2])
+    for e in ob.get("oracle", []):
+        if e[0] != "transit":
+            continue
+        k = (e[2], e[3], e[4])
+        if k not in verbs:
+            continue
+        kind, goal = verbs[k]
+        S = e[5]
+        if kind == "timeout":
+            want = float.fromhex(S[e[2]][4]) >= float(goal)
+        else:
+            want = S[e[2]][5] >= goal
+        if bool(e[6]) != want:
+            return ("verb-condition", "tick %d: `%s %r` in frame %s of %s evaluated %s with elapsed=%r recurred=%d"
+                    % (e[1], kind, goal, e[3], e[2], e[6], float.fromhex(S[e[2]][4]), S[e[2]][5]))
+    return None
+
+
 def pred_c10(prog, ob):
     """a conditional auxiliary that is not entered, whose conditions hold, which is free and may start, is
     entered by the attempt; the frames below its main frame are suspended (truthy result) only while it is
@@ -827,7 +913,9 @@ def pred_c10(prog, ob):
 PREDS = {"C04": pred_c04, "C03": pred_c03, "C05": pred_c05, "C06": pred_c06, "C09": pred_c09, "C11": pred_c11,
          "C08": pred_c08, "C04s": pred_c04_start, "C09d": pred_c09_done, "C10": pred_c10,
          "C09o": pred_c09_order, "C11c": pred_c11_const, "C03e": pred_c03_end,
-         "C02r": pred_c02_replay, "C05s": pred_c05_susp, "C08p": pred_c08_permitted}
+         "C02r": pred_c02_replay, "C05s": pred_c05_susp, "C08p": pred_c08_permitted,
+         "C09r": pred_recur_active, "C11v": pred_c11_verbs,
+         "C04u": pred_slaves_unscheduled, "C08l": pred_let_conjuncts, "C06t": pred_tracts_first}
 
 
 def kernel_check(ctx, pid, runs, preds, rule, extra_assumptions=(), corpus=(), extra_checks=()):
